@@ -406,3 +406,86 @@ pub fn show_args(parts: &[&dyn Fn(&mut String)]) -> String {
     s.push(')');
     s
 }
+
+// ------------------------------------------------------------------ Consume: what user code does with a value
+
+/// What the stub does with a value it received, as user code would: everything is dropped, except that own
+/// handles of *exported* resources (generated impl) follow the seeded policy: drop the handle, `into_inner` it and
+/// drop or keep the payload, look at it first.  Anonymous types recurse; borrowed forms are left alone.
+pub trait Consume: Sized {
+    fn consume(self) {}
+}
+macro_rules! consume_leaf { ($($t:ty),*) => {$( impl Consume for $t {} )*}; }
+consume_leaf!(bool, u8, u16, u32, u64, i8, i16, i32, i64, f32, f64, char, String, ());
+impl<T: ?Sized> Consume for &T {}
+impl<T: Consume> Consume for Vec<T> {
+    fn consume(self) {
+        for x in self {
+            x.consume()
+        }
+    }
+}
+impl<T: Consume, const N: usize> Consume for [T; N] {
+    fn consume(self) {
+        for x in self {
+            x.consume()
+        }
+    }
+}
+impl<T: Consume> Consume for Box<T> {
+    fn consume(self) {
+        (*self).consume()
+    }
+}
+impl<T: Consume> Consume for Option<T> {
+    fn consume(self) {
+        if let Some(x) = self {
+            x.consume()
+        }
+    }
+}
+impl<T: Consume, E: Consume> Consume for Result<T, E> {
+    fn consume(self) {
+        match self {
+            Ok(x) => x.consume(),
+            Err(x) => x.consume(),
+        }
+    }
+}
+impl<K: Consume, V: Consume> Consume for BTreeMap<K, V> {
+    fn consume(self) {
+        for (k, v) in self {
+            k.consume();
+            v.consume()
+        }
+    }
+}
+impl<K: Consume, V: Consume> Consume for HashMap<K, V> {
+    fn consume(self) {
+        for (k, v) in self {
+            k.consume();
+            v.consume()
+        }
+    }
+}
+macro_rules! consume_tuples {
+    ($(($($n:tt $t:ident),+))*) => {$(
+        impl<$($t: Consume),+> Consume for ($($t,)+) {
+            fn consume(self) { $( self.$n.consume(); )+ }
+        }
+    )*};
+}
+consume_tuples! {
+    (0 A)
+    (0 A, 1 B)
+    (0 A, 1 B, 2 C)
+    (0 A, 1 B, 2 C, 3 D)
+    (0 A, 1 B, 2 C, 3 D, 4 E)
+    (0 A, 1 B, 2 C, 3 D, 4 E, 5 F)
+    (0 A, 1 B, 2 C, 3 D, 4 E, 5 F, 6 G)
+    (0 A, 1 B, 2 C, 3 D, 4 E, 5 F, 6 G, 7 H)
+    (0 A, 1 B, 2 C, 3 D, 4 E, 5 F, 6 G, 7 H, 8 I)
+    (0 A, 1 B, 2 C, 3 D, 4 E, 5 F, 6 G, 7 H, 8 I, 9 J)
+    (0 A, 1 B, 2 C, 3 D, 4 E, 5 F, 6 G, 7 H, 8 I, 9 J, 10 K)
+    (0 A, 1 B, 2 C, 3 D, 4 E, 5 F, 6 G, 7 H, 8 I, 9 J, 10 K, 11 L)
+}
